@@ -190,6 +190,24 @@ def delete (F : Oracle) (w : World) (n : Nat) : World × Res Unit :=
   | .fail | .failPartial => (w.tick, .err false)
   | .crash | .crashPartial => ({ w.tick with dead := true }, .err false)
 
+/-- `ObjectStore::exists` (named `probe`: `exists` is a keyword): a read-only, faultable call that changes nothing (none of the
+    modelled operations of the current tree issues it; the harness store does not count read-only
+    probes the model does not know — see harness/src/c12.rs — so adding one is not a difference) -/
+def probe (F : Oracle) (w : World) (n : Nat) : World × Res Bool :=
+  if w.dead then (w, .err false) else
+  match F w.calls with
+  | .ok | .readCorrupt => (w.tick, .ok (NMap.get w.store n).isSome)
+  | .fail | .failPartial => (w.tick, .err false)
+  | .crash | .crashPartial => ({ w.tick with dead := true }, .err false)
+
+/-- `ObjectStore::head`: as `probe`, `NotFound` for a missing object -/
+def head (F : Oracle) (w : World) (n : Nat) : World × Res Unit :=
+  if w.dead then (w, .err false) else
+  match F w.calls with
+  | .ok | .readCorrupt => (w.tick, if (NMap.get w.store n).isSome then .ok () else .err true)
+  | .fail | .failPartial => (w.tick, .err false)
+  | .crash | .crashPartial => ({ w.tick with dead := true }, .err false)
+
 /-- `ObjectStore::list` (all names; none of the modelled operations lists) -/
 def list (F : Oracle) (w : World) : World × Res (List Nat) :=
   if w.dead then (w, .err false) else
@@ -284,8 +302,26 @@ structure CompactCfg where
   target : Nat      -- `target_segment_size`
   minSegs : Nat     -- `min_segments_to_compact`
   maxPer : Nat      -- `max_segments_per_compaction`
-  cutoff : Nat      -- `now_millis().saturating_sub(tombstone_ttl)`
+  now : Nat         -- `time_source.now_millis()` (u64)
+  ttlMs : Nat       -- `tombstone_ttl.as_millis()` (u128)
   deriving DecidableEq, Repr, Inhabited
+
+/-- does `tombstone_ttl.as_millis() as u64` saturate (`true`: the suggested repair
+    `u64::try_from(..).unwrap_or(u64::MAX)`) or truncate modulo 2^64 (`false`: the code that
+    exists — a TTL of 2^64 ms or more wraps around) -/
+def ttlSaturates : Bool := false
+
+/-- `self.config.tombstone_ttl.as_millis() as u64` -/
+def ttlToU64With (saturate : Bool) (ttlMs : Nat) : Nat :=
+  if saturate then Min.min ttlMs (2 ^ 64 - 1) else ttlMs % 2 ^ 64
+
+def ttlToU64 (ttlMs : Nat) : Nat := ttlToU64With ttlSaturates ttlMs
+
+/-- `current_time.saturating_sub(ttl)` in u64 — the code's real arithmetic -/
+def cutoffWith (saturate : Bool) (now ttlMs : Nat) : Nat := now - ttlToU64With saturate ttlMs
+
+/-- the tombstone cutoff of a pass: Lamport times strictly below it count as "older than the TTL" -/
+def CompactCfg.cutoff (c : CompactCfg) : Nat := cutoffWith ttlSaturates c.now c.ttlMs
 
 /-- the two repairs (both landed as `fix:` commits; `pinnedFlags` is the pinned commit) -/
 structure CompactFlags where
